@@ -367,3 +367,35 @@ M("r6f-recogniser-reads-one-parse", ["C01"], "break",
   [("yaep.c", "  local_lookahead_level = (lookahead_term_num < 0\n			   ? 0 : grammar->lookahead_level);", "  local_lookahead_level = (lookahead_term_num < 0 || !grammar->one_parse_p\n			   ? 0 : grammar->lookahead_level);")], "recogniser/")
 M("r6f-acceptance-depends-on-cost", ["C01"], "break",
   [("yaep.c", "      || sit->rule->lhs != grammar->axiom || sit->pos != sit->rule->rhs_len)\n    {", "      || sit->rule->lhs != grammar->axiom || sit->pos != sit->rule->rhs_len\n      || (grammar->cost_p && toks_len > 100000))\n    {")], "make_parse/acceptance")
+
+# ---- a batch of behaviour-preserving maintenance edits: every listed check must stay silent ------------------
+M("benign-defaults-reordered", ["C15"], "benign",
+  [("yaep.c", "  grammar->debug_level = 0;\n  grammar->lookahead_level = 1;\n  grammar->one_parse_p = 1;\n  grammar->cost_p = 0;", "  grammar->cost_p = 0;\n  grammar->one_parse_p = 1;\n  grammar->lookahead_level = 1;\n  grammar->debug_level = 0;")])
+M("benign-defaults-in-helper", ["C15", "C14", "C17"], "benign",
+  [("yaep.c", "/* The following function allocates memory for new grammar. */", "static void\nset_defaults (struct grammar *g)\n{\n  g->debug_level = 0;\n  g->lookahead_level = 1;\n  g->one_parse_p = 1;\n  g->cost_p = 0;\n  g->error_recovery_p = 1;\n  g->recovery_token_matches = DEFAULT_RECOVERY_TOKEN_MATCHES;\n}\n\n/* The following function allocates memory for new grammar. */"),
+   ("yaep.c", "  grammar->debug_level = 0;\n  grammar->lookahead_level = 1;\n  grammar->one_parse_p = 1;\n  grammar->cost_p = 0;\n  grammar->error_recovery_p = 1;\n  grammar->recovery_token_matches = DEFAULT_RECOVERY_TOKEN_MATCHES;", "  set_defaults (grammar);")])
+M("benign-root-reset-first", ["C05", "C14", "C15", "C17", "C13"], "benign",
+  [("yaep.c", "  parse_free = free;\n  *root = NULL;\n  *ambiguous_p = FALSE;\n  pl_init ();", "  parse_free = free;\n  pl_init ();"),
+   ("yaep.c", "  /* Set up parse allocation */\n  if (alloc == NULL)", "  *root = NULL;\n  *ambiguous_p = FALSE;\n  /* Set up parse allocation */\n  if (alloc == NULL)")])
+M("benign-free-order", ["C14", "C17"], "benign",
+  [("yaep.c", "      rule_fin (g->rules_ptr);\n      term_set_fin (g->term_sets_ptr);\n      symb_fin (g->symbs_ptr);", "      symb_fin (g->symbs_ptr);\n      term_set_fin (g->term_sets_ptr);\n      rule_fin (g->rules_ptr);")])
+M("benign-tok-add-local", ["C15", "C06", "C02", "C12"], "benign",
+  [("yaep.c", "  tok.attr = attr;\n  tok.symb = symb_find_by_code (code);\n  if (tok.symb == NULL)\n    yaep_error (YAEP_INVALID_TOKEN_CODE, \"invalid token code %d\", code);",
+    "  struct symb *found = symb_find_by_code (code);\n\n  if (found == NULL)\n    yaep_error (YAEP_INVALID_TOKEN_CODE, \"invalid token code %d\", code);\n  tok.attr = attr;\n  tok.symb = found;")])
+M("benign-read-toks-for-loop", ["C15", "C06"], "benign",
+  [("yaep.c", "  while ((code = read_token (&attr)) >= 0)\n    tok_add (code, attr);", "  for (;;)\n    {\n      code = read_token (&attr);\n      if (code < 0)\n	break;\n      tok_add (code, attr);\n    }")])
+M("benign-vsnprintf-sizeof", ["C12", "C17", "C15"], "benign",
+  [("yaep.c", "  vsnprintf (grammar->error_message, YAEP_MAX_ERROR_MESSAGE_LENGTH, format,", "  vsnprintf (grammar->error_message, sizeof (grammar->error_message), format,")])
+M("benign-setter-no-temp", ["C15"], "benign",
+  [("yaep.c", "  old = grammar->cost_p;\n  grammar->cost_p = flag;\n  return old;", "  old = grammar->cost_p;\n  if (old != flag)\n    grammar->cost_p = flag;\n  return old;")])
+M("benign-table-sizes", ["C12", "C14", "C19"], "benign",
+  [("yaep.c", "create_hash_table (grammar->alloc, 2000, set_core_hash, set_core_eq);", "create_hash_table (grammar->alloc, 4000, set_core_hash, set_core_eq);")])
+M("benign-pruning-if-else", ["C13", "C04"], "benign",
+  [("yaep.c", "	  if (*entry != NULL)\n	    continue;\n	  /* The same node can be mentioned several times and the same\n	     name is used by all nodes of a rule: remember what we have\n	     freed.  */\n	  *entry = (hash_table_entry_t) *node_ptr;",
+    "	  if (*entry == NULL)\n	    *entry = (hash_table_entry_t) *node_ptr;\n	  else\n	    continue;")])
+M("benign-extra-debug-print", ["C09", "C01"], "benign",
+  [("yaep.c", "  error_recovery_init ();\n  build_start_set ();", "  error_recovery_init ();\n#ifndef NO_YAEP_DEBUG_PRINT\n  if (grammar->debug_level > 6)\n    fprintf (stderr, \"building the parser list for %d tokens\\n\", toks_len);\n#endif\n  build_start_set ();")])
+M("benign-message-text", ["C10", "C12", "C15"], "benign",
+  [("yaep.c", "\"repeated declaration of term `%s'\"", "\"terminal `%s' is declared twice\"")])
+M("benign-free-tree-default", ["C13", "C16"], "benign",
+  [("yaep.c", "  if (parse_free == NULL)\n    {\n      parse_free = parse_free_default;\n    }", "  if (!parse_free)\n    parse_free = parse_free_default;")])
